@@ -817,17 +817,19 @@ func (s *state) match(route, verb string) (*method, params, error) {
 // ServeHTTP implements http.Handler.
 // It supports both gRPC and HTTP requests.
 func (m *Mux) ServeHTTP(w http.ResponseWriter, r *http.Request) {
-	if r.ProtoMajor == 2 && strings.HasPrefix(
-		r.Header.Get("Content-Type"), "application/grpc",
-	) {
-		m.serveGRPC(w, r)
-		return
-	}
-
+	// gRPC-web first: its content types also start with "application/grpc"
+	// and it arrives over HTTP/2 as well as HTTP/1.1.
 	if strings.HasPrefix(
 		r.Header.Get("Content-Type"), "application/grpc-web",
 	) {
 		m.serveGRPCWeb(w, r)
+		return
+	}
+
+	if r.ProtoMajor == 2 && strings.HasPrefix(
+		r.Header.Get("Content-Type"), "application/grpc",
+	) {
+		m.serveGRPC(w, r)
 		return
 	}
 
